@@ -324,6 +324,9 @@ type FrameCase struct {
 	License  string     `json:"license"`            // client default (hex)
 	Override string     `json:"override,omitempty"` // per-send license (hex); empty: none
 	Pcode    int64      `json:"client_pcode"`       // the client's own project code (must not be used for the frame)
+	// further per-send options, which the frame layout has no place for: the frame must not depend on them
+	Secure   *uint8 `json:"secure,omitempty"`
+	Priority *bool  `json:"priority,omitempty"`
 }
 
 var licenses = []string{"", "x", "abcdef-0123456789-license", "라이선스-키", "  padded  "}
@@ -379,12 +382,17 @@ func runFrame(c FrameCase) *pbt.Result {
 	}()
 	cl := oneway.NewForVerif(oneway.WithServers([]string{ln.Addr().String()}), oneway.WithLicense(lic), oneway.WithPcode(c.Pcode))
 	defer cl.Close()
-	var serr error
-	if over != "" {
-		serr = cl.Send(p, wnet.WithLicense(over))
-	} else {
-		serr = cl.Send(p)
+	var sendOpts []wnet.TcpClientOption
+	if c.Secure != nil {
+		sendOpts = append(sendOpts, wnet.WithSecureFlag(*c.Secure))
 	}
+	if over != "" {
+		sendOpts = append(sendOpts, wnet.WithLicense(over))
+	}
+	if c.Priority != nil {
+		sendOpts = append(sendOpts, wnet.WithPriority(*c.Priority))
+	}
+	serr := cl.Send(p, sendOpts...)
 	if serr != nil {
 		return pbt.Fail("Send on a healthy loopback connection returned %v", serr)
 	}
@@ -403,12 +411,19 @@ func runFrame(c FrameCase) *pbt.Result {
 	if over != "" {
 		cl2 = "license=per-send"
 	}
-	return &pbt.Result{NT: true, Classes: []string{"type=" + c.Pack.Type, cl2}, Key: want}
+	classes := []string{"type=" + c.Pack.Type, cl2}
+	if c.Secure != nil {
+		classes = append(classes, "option=secure-flag")
+	}
+	if c.Priority != nil {
+		classes = append(classes, "option=priority")
+	}
+	return &pbt.Result{NT: true, Classes: classes, Key: append(want, byte(len(sendOpts)))}
 }
 
 var specFrame = pbt.Register(pbt.Spec[FrameCase]{
 	Prop: "C05", Name: "frame-on-tcp",
-	Rule:  "a pack of a covered type sent by a fresh one-way client (direct mode) to a harness-owned loopback listener, with and without a per-send license; bytes received must equal 10, 0, pack's project code, 64-bit hash of the effective license text, 4-byte length, type, reference body - and nothing more; every case is non-trivial; distinct by frame bytes",
+	Rule:  "a pack of a covered type sent by a fresh one-way client (direct mode) to a harness-owned loopback listener, with and without a per-send license, secure flag and priority option (the layout has no place for the last two: the frame must not depend on them); bytes received must equal 10, 0, pack's project code, 64-bit hash of the effective license text, 4-byte length, type, reference body - and nothing more; every case is non-trivial; distinct by frame bytes",
 	Quick: 240, Thorough: 6000,
 	Draw: func(t *rapid.T) FrameCase {
 		pc := gpack.Case{Type: rapid.SampledFrom(bodyTypes).Draw(t, "type"), Seed: rapid.Uint64().Draw(t, "seed"), Len: rapid.SampledFrom([]int{0, 30, 800}).Draw(t, "len")}
@@ -417,7 +432,16 @@ var specFrame = pbt.Register(pbt.Spec[FrameCase]{
 		if rapid.Bool().Draw(t, "override") {
 			over = rapid.OneOf(rapid.SampledFrom(licenses[1:]), rapid.StringN(1, 20, 200)).Draw(t, "over")
 		}
-		return FrameCase{Pack: pc, License: gen.Hex([]byte(lic)), Override: gen.Hex([]byte(over)), Pcode: gen.Int64().Draw(t, "cpcode")}
+		fc := FrameCase{Pack: pc, License: gen.Hex([]byte(lic)), Override: gen.Hex([]byte(over)), Pcode: gen.Int64().Draw(t, "cpcode")}
+		if rapid.IntRange(0, 2).Draw(t, "secure?") == 0 {
+			b := rapid.SampledFrom([]uint8{0, 1, 2, 0x10, 0x80, 0xff}).Draw(t, "secure")
+			fc.Secure = &b
+		}
+		if rapid.IntRange(0, 3).Draw(t, "priority?") == 0 {
+			b := rapid.Bool().Draw(t, "priority")
+			fc.Priority = &b
+		}
+		return fc
 	},
 	Run: runFrame,
 })
